@@ -101,6 +101,9 @@ class Ctx:
 
             canon.strip_local_annotations(tree)
             canon.inline_explaining_temporaries(tree)
+            k = canon.unroll_literal_comprehensions(tree) + canon.inline_expression_helpers(tree, canon.reference_functions(rel))
+            if k:
+                self.notes.append(f"{rel}: {k} new private expression helper call(s) / literal comprehension(s) inlined before analysis")
             k = canon.canonicalise(tree, rel, canon.package_keyword_names(self.root, self.overlay))
             if k:
                 self.notes.append(f"{rel}: {k} local(s) renamed to their reference spelling before analysis (alpha-renaming)")
